@@ -1,3 +1,4 @@
+from vlib.props import pcommon
 from vlib import framework as fw
 from vlib.monitors import lexmon
 
@@ -17,3 +18,10 @@ def check(run, only=None):
                                                             r=lexmon.REGS, m=params["max_len"]))
         out["extra"]["terminal_sets"] = len(cs)
         run.add_bounded(out)
+    if only in (None, "P"):
+        from vlib.companions import parserfuncs as pf
+        pcommon.add_proof(run, "C07", ["parglare.parser.Parser._lexical_disambiguation", "parglare.parser.Parser._next_token"],
+                          [pf.run_misc, pf.run_recovery],
+                          "_lexical_disambiguation: identity on <= 1 candidates, survivors are candidates of maximal match "
+                          "length, prefer excludes non-preferred; _next_token: none -> None, one -> it, several -> "
+                          "DisambiguationError")
